@@ -89,9 +89,30 @@ fn round(mode: u8, nkeys: u64, writers: usize, readers: usize, writer_ops: u64, 
     let tids: Arc<Vec<AtomicI64>> = Arc::new((0..n).map(|_| AtomicI64::new(0)).collect());
     let done: Arc<Vec<AtomicBool>> = Arc::new((0..writers).map(|_| AtomicBool::new(false)).collect());
     let mut hs = Vec::new();
+    // `park` may return spuriously; in every other round a pest thread makes that happen all the
+    // time by handing unpark tokens to the writers (stopped before the blocked-state samples)
+    let writer_threads: Arc<std::sync::Mutex<Vec<std::thread::Thread>>> = Arc::new(std::sync::Mutex::new(Vec::new()));
+    let pest_stop = Arc::new(AtomicBool::new(false));
+    let pest_handle = if seed & 1 == 1 {
+        let (wt, ps) = (writer_threads.clone(), pest_stop.clone());
+        Some(std::thread::spawn(move || {
+            while !ps.load(Ordering::Relaxed) {
+                for t in wt.lock().unwrap().iter() {
+                    t.unpark();
+                }
+                for _ in 0..2000 {
+                    std::hint::spin_loop();
+                }
+            }
+        }))
+    } else {
+        None
+    };
     for w in 0..writers {
         let (m, p, t, d) = (map.clone(), progress.clone(), tids.clone(), done.clone());
+        let wt = writer_threads.clone();
         hs.push(std::thread::spawn(move || {
+            wt.lock().unwrap().push(std::thread::current());
             t[w].store(unsafe { libc::syscall(libc::SYS_gettid) } as i64, Ordering::SeqCst);
             let mut rng = Rng(splitmix(seed ^ (w as u64) << 20) | 1);
             for _ in 0..writer_ops {
@@ -126,6 +147,9 @@ fn round(mode: u8, nkeys: u64, writers: usize, readers: usize, writer_ops: u64, 
         if done.iter().all(|d| d.load(Ordering::SeqCst)) {
             break;
         }
+        if t0.elapsed().as_secs() >= 5 {
+            pest_stop.store(true, Ordering::SeqCst);
+        }
         if t0.elapsed().as_secs() >= 6 {
             let snap = |i: usize| (progress[i].load(Ordering::SeqCst), thread_state(tids[i].load(Ordering::SeqCst)));
             let s1: Vec<(u64, char)> = (0..n).map(snap).collect();
@@ -154,6 +178,10 @@ fn round(mode: u8, nkeys: u64, writers: usize, readers: usize, writer_ops: u64, 
         std::thread::sleep(std::time::Duration::from_millis(2));
     }
     stop.store(true, Ordering::SeqCst);
+    pest_stop.store(true, Ordering::SeqCst);
+    if let Some(h) = pest_handle {
+        let _ = h.join();
+    }
     calls.0 += (0..writers).map(|w| progress[w].load(Ordering::SeqCst)).sum::<u64>();
     calls.1 += (writers..n).map(|r| progress[r].load(Ordering::SeqCst)).sum::<u64>();
     if matches!(verdict, Ok(None)) {
